@@ -10,7 +10,7 @@ K         kernel validation: REAL launches traced during mjw.forward on a sensor
           the translated kernels inside Coq (inlined _sensor_pos/_sensor_vel/_sensor_acc/_limit_* included)
 oracle    mjw.forward vs mujoco.mj_forward sensordata for every supported sensor type x objtype/reftype,
           with and without cutoff, nworld=2 with different states, energy flag on/off, plus directed
-          regression cases for the defects found (keys C07:<type>:<what>)."""
+          regression cases for the five defects found and since repaired in /repo (keys C07:<type>:<what>)."""
 
 from __future__ import annotations
 
@@ -24,7 +24,7 @@ import propkit
 import vlib
 
 MANIFEST = {
-  "text": "proof: the cutoff rule (REAL clamp to [-c,c], POSITIVE min(x,c), c<=0 no-op, GEOMFROMTO and AXIS/QUATERNION exempt) and its equality with MuJoCo's apply_cutoff over R; the machine translations of the kernels _sensor_pos (all types but the 3 geom-distance ones), _sensor_vel and _tendon_actuator_force_cutoff EQUAL readable models built from that cutoff function, for every scalar instance; a _limit_pos/_vel/_frc task writes nothing or the row's value through the cutoff function, and only for a limit row with efc_id = objid (that this ignores the sensor family is a recorded defect with a _refuted theorem); every write of a _sensor_pos/_sensor_vel task lies in its sensor's slot and slots of different sensors are disjoint under MuJoCo's adr/dim invariant; kinetic energy >= 0 for PSD M, gravitational potential = -sum m g.x from the translated energy kernels; closed forms of clock/jointpos/jointvel/gyro/velocimeter/magnetometer/framepos. The ~60 individual sensor formulas, contact/touch/tactile sensors, spring energy of ball/free joints and everything float32 are covered by kernel validation and the differential oracle only.",
+  "text": "proof: the cutoff rule (REAL clamp to [-c,c], POSITIVE min(x,c), c<=0 no-op, GEOMFROMTO and AXIS/QUATERNION exempt) and its equality with MuJoCo's apply_cutoff over R; the machine translations of the kernels _sensor_pos (all types but the 3 geom-distance ones), _sensor_vel and _tendon_actuator_force_cutoff EQUAL readable models built from that cutoff function, for every scalar instance; a _limit_pos/_vel/_frc task writes exactly the selected limit row's value through the cutoff function, and the selection is MuJoCo's (a joint-limit sensor reads only LIMIT_JOINT rows of its joint, a tendon-limit sensor only LIMIT_TENDON rows of its tendon); every write of a _sensor_pos/_sensor_vel task lies in its sensor's slot and slots of different sensors are disjoint under MuJoCo's adr/dim invariant; kinetic energy >= 0 for PSD M, gravitational potential = -sum m g.x from the translated energy kernels; closed forms of clock/jointpos/jointvel/gyro/velocimeter/magnetometer/framepos. The ~60 individual sensor formulas, contact/touch/tactile sensors, spring energy of ball/free joints and everything float32 are covered by kernel validation and the differential oracle only.",
   "note": "trusted: Coq kernel; bin/translate.py and the source-to-source step of bin/gens_sensor.py (inlining of the void writer functions, alias elimination, Coq-level lambda lifting) -- both validated on every run by re-executing traced real launches inside Coq; MuJoCo apply_cutoff transcribed by hand into Model/Sensor.v mj_cutoff (checked against the MuJoCo binary by the oracle); real-number axioms of Coq's Reals",
   "technique": "Rocq proof over kernels machine-translated from the source (T for kernels), translation validation on traced launches, differential oracle against MuJoCo C",
   "engine": "coq",
@@ -177,7 +177,7 @@ def sensor_specs(small=False):
     add("SUBTREEANGMOM", f'<subtreeangmom body="{b}"/>', (0.01,))
   pairs = [('geom1="g0" geom2="g2b"', 2.0), ('geom1="g2b" geom2="g0"', 2.0), ('geom1="g0b" geom2="g2b"', 2.0), ('geom1="g1" geom2="gf0"', 3.0),
            ('body1="b0" body2="b2"', 2.0), ('geom1="gf1" body2="b2"', 3.0), ('body1="bf1" geom2="g0"', 3.0), ('geom1="g0" geom2="g2b"', 0.05),
-           ('geom1="gf0" geom2="floor"', 1.0), ('geom1="floor" geom2="gf2"', 1.0)]  # fmt: skip
+           ('geom1="gf0" geom2="floor"', 1.0), ('geom1="floor" geom2="gf2"', 1.0), ('geom1="g0b" geom2="g2"', 2.0)]  # fmt: skip
   for el, tp in (("distance", "GEOMDIST"), ("normal", "GEOMNORMAL"), ("fromto", "GEOMFROMTO")):
     for p, c in pairs[:4] if small else pairs:
       S.append((tp, f'<{el} {p} cutoff="{c}"/>', None))  # here the cutoff is part of the definition
@@ -194,7 +194,7 @@ def sensor_specs(small=False):
     add("FORCE", f'<force site="{s}"/>', (1.0,))
     add("TORQUE", f'<torque site="{s}"/>', (0.1,))
   for s in ("sf", "sf2", "s1"):
-    add("TOUCH", f'<touch site="{s}"/>')  # touch with a cutoff: directed case (defect C07:TOUCH:cutoff-ignored)
+    add("TOUCH", f'<touch site="{s}"/>', (2.0,))
   datas = ("found", "force dist normal", "torque pos tangent", "found force torque dist pos normal tangent")
   k = 0
   for sel in ("", 'geom1="floor"', 'geom2="gf0"', 'geom1="gf1" geom2="floor"', 'body1="bf"', 'body1="world" body2="bf"', 'subtree1="bf"', 'site="sf2"', 'site="sf" body2="world"'):  # fmt: skip
@@ -656,7 +656,7 @@ def kvalidate(res, trs, nstates, thorough):
 # --------------------------------------------------------------------------------------------
 def classify(tp, xml, cutoff):
   """Violation key of a mismatching sensor (root cause when it is recognisable)."""
-  if tp in ("GEOMDIST", "GEOMNORMAL", "GEOMFROMTO") and "capsule-capsule" in xml:
+  if tp in ("GEOMDIST", "GEOMNORMAL", "GEOMFROMTO") and 'geom1="g0b" geom2="g2"' in xml:
     return "C07:GEOMDIST:capsule-capsule-beyond-margin"
   if tp == "TOUCH" and cutoff not in (0.0, "def"):
     return "C07:TOUCH:cutoff-ignored"
